@@ -125,6 +125,12 @@ def run(ctx, info):
             for mode, wk in (("thread", r.choice([1, 3, 8])), ("process", r.choice([2, 4]))):
                 jobs.append({"opt": nm, "cfg": {"population_size": int(P0 * r.choice([1, 1.5])), "max_cycles": 2, "fitness_error": None}, "mode": mode, "workers": wk,
                              "task": search.cont_task(obj="sphere", seed=r.randint(0, 10**6))})
+    # the size does not depend on the cost landscape: fully tied costs (constant objective), plateaus, and few distinct costs (a binary task) - ties at a trim cut-off
+    for nm in search.all_names():
+        P0 = search.fixture_scale(nm)["population_size"]
+        jobs.append({"opt": nm, "cfg": {"population_size": P0, "max_cycles": 4, "fitness_error": None}, "task": search.cont_task(obj=r.choice(["const", "step"]), seed=r.randint(0, 10**6), dim=2)})
+        jobs.append({"opt": nm, "cfg": {"population_size": P0, "max_cycles": 4, "fitness_error": None},
+                     "task": {"vars": [("binary", 6)], "obj": "abs", "minmax": r.choice(["min", "max"]), "seed": r.randint(0, 10**6)}})
     # HyperTuner style: an instance that already ran with ANOTHER population size is reconfigured and run again: every recorded generation has the NEW size
     for nm in (search.all_names() if not ctx.quick else sorted(by_design) + irregular + r.sample(regular_now, 10)):
         P0 = search.fixture_scale(nm)["population_size"]
